@@ -519,6 +519,22 @@ CLAIMED.update(
     }
 )
 
+CLAIMED.update(
+    {
+        "C07": (
+            "partition-representative evaluation: the covered-CDG construction, the branch adapter's visit_node, the control-dependence queries, the goal-graph builder and the goal manager are interpreted from source over representative control-dependence graphs (networkx graphs built by the checker) and must satisfy agreement and reachability laws",
+            "Decides: for a block ending in a conditional jump, _create_covered_cdg keeps it exactly when visit_node (each of the five versions) reaches a predicate visitor, over all 16 combinations of excluded / covered lines, "
+            "excluded conditional statement and line-less jump; after an excluded block is removed every predecessor is connected to every successor by an unlabelled edge (also to a successor that keeps a back edge) and "
+            "the entry reaches every block; get_control_dependencies looks through unlabelled edges and terminates on cycles, is_control_dependent_on_root follows unlabelled edges only; over five representative shapes "
+            "(nested, sequential + loop, excluded block in the middle, excluded block in front of a loop header, handler block) _build_graph does not fail, leaves no goal without incoming edge outside the roots, and "
+            "_GoalsManager.update, driven by an archive that covers what it is handed, makes every goal current while an uncovered goal stays current and withholds its children. "
+            "Not decided: that these shapes exhaust the CDGs a module can produce (they are representatives), nor ControlDependenceGraph.compute itself (C06).",
+            "Trusts networkx (the repository's own dependency, used to hold the representative graphs) and sa/engine/peval.py.",
+            "DESIGN.md §3 C07",
+        ),
+    }
+)
+
 NOT_APPLICABLE: dict[str, str] = {
     "C06": "Correctness of the post-dominator/CDG construction on every code object is functional correctness of a graph "
     "algorithm; no shape of the code implies it and no sound static argument in reach bounds 'all code objects'.",
